@@ -52,7 +52,8 @@ def make(recipe):
             model_key=recipe.get("model", "hertz_para"),
             noise=recipe.get("noise", 2e-11), seed=recipe.get("seed", 1),
             spikes=recipe.get("spikes", 0), tilt=recipe.get("tilt", 0.),
-            depth=recipe.get("depth", 1e-6))
+            depth=recipe.get("depth", 1e-6), ring=recipe.get("ring", 0),
+            z0=recipe.get("z0", 3e-6))
     return idnt
 
 
@@ -260,9 +261,18 @@ def cases(tier, rng):
             if st == "fixedcp":
                 r2["cp"] = rng.choice([5e-6, -5e-6, 1e-7])
             out.append((r2, st, req, which))
+    # long low-noise indentation parts with ringing artefacts (always)
+    ringing = []
+    for ring in (1, 3, 7, -1, -3, -7):
+        for noise in (0., 1e-12):
+            r = dict(kind="syn", n_app=4000, model="hertz_para", noise=noise,
+                     spikes=0, seed=5, tilt=0., ring=ring, z0=1e-6,
+                     depth=2e-6)
+            ringing.append((r, "fitted", (), "all"))
     if tier == "quick":
-        out = rng.sample(out, 110)
+        out = rng.sample(out, 110) + ringing
     else:
+        out += ringing
         out = out + [(r, st, tuple(rng.sample(ALL, rng.choice([2, 3, 5]))),
                       rng.choice(["all", "binary", "continuous"]))
                      for r in recipes for st in states]
